@@ -74,10 +74,12 @@ PREMISES = {
              'parser under that name (C11.D1 name/role agreement on the '
              'introspection path)')],
     'C16': [CODEC,
-            ('c10', lambda r, w, s: r == 'C10.D1',
+            ('c10', lambda r, w, s: r == 'C10.D1' or (
+                r == 'C10.D3' and s.startswith('guard:object-exported')),
              'what a peer sees of the tree are the dispatcher\'s answers: '
              'every way out of it sends exactly one reply - UnknownObject '
-             'included (C10.D1)')],
+             'included (C10.D1) - and "exported" is decided by presence in '
+             'the table, not by the truth value of the object (C10.D3)')],
     'C17': [CODEC,
             ('c19', lambda r, w, s: r == 'C19.D2',
              'PropertiesChanged carries the raw value as a variant: the type '
